@@ -227,13 +227,11 @@ size_t varintPFORDecode(const uint8_t *src, uint64_t *values,
         uint64_t offset;
         varintExternalGetQuick_(src, meta->width, offset);
 
-        if (offset == meta->exceptionMarker) {
-            /* Exception placeholder, will be filled later */
-            values[i] = UINT64_MAX; /* temporary marker */
-        } else {
-            /* Regular value: add offset to min */
-            values[i] = meta->min + offset;
-        }
+        /* Regular value: add offset to min. An exception placeholder is
+         * overwritten from the exception list below; an in-range value whose
+         * offset happens to equal the all-ones marker has no exception entry
+         * and must keep its regular decoding. */
+        values[i] = meta->min + offset;
 
         src += meta->width;
     }
@@ -306,6 +304,7 @@ uint64_t varintPFORGetAt(const uint8_t *src, uint32_t index,
         exceptionPtr += w1 + w2;
     }
 
-    /* Should not reach here if data is valid */
-    return 0;
+    /* No exception entry: the offset merely coincides with the marker and
+     * is a regular in-range value. */
+    return meta->min + offset;
 }
